@@ -19,10 +19,9 @@ CHECKS = {
   note="Partial by nature: native stack exhaustion, allocation failure and wall-clock are runtime behaviour outside any model (nesting depth is bounded in the generators). The review of guarded sites is a hand argument, not a theorem; parser/resolver/type-checker totality is covered by the oracle (and by the other agents' models where they exist). No axioms.",
   technique="regenerated panic-site table vs reviewed table (vm_compute) + lexer totality theorems (Coq) + totality fuzz oracle with panic capture and watchdog", design="DESIGN.md §4 C07"),
  "C10": dict(
-  text="Static half of C10: a Coq model of intermediate.rs + lua.rs (IR lowering, usage counting, text generation) is fed the real resolver's output and must reproduce the real compiler's Lua text byte for byte on every run; on the model's IR a scoping checker (every variable is introduced as a Lua local/parameter/external in an enclosing block before it is read or assigned; assignment targets are real locals, not inlinable temporaries) must accept every accepted program, and an independent scan of the REAL Lua text must find no V-name outside a binding.",
-  note="The scoping theorem for all programs (lower_scoped) is not yet proved: the claim currently rests on the byte-exact tie + the checker run on every program of the tie (translation-validation strength) + the independent text oracle. The dynamic half (fresh cells per activation/iteration, capture by reference) is Lua semantics and needs the Lua interpreter model. No axioms.",
-  technique="Coq backend model tied byte-exactly to the real output + IR scoping checker + independent text scan", design="DESIGN.md §4 C10",
-  category="translation_validation"),
+  text="Static half of C10, proved in Coq for all programs: if the resolved program is lexically scoped (rs_resolved, an executable check) then the IR produced by the lowering model introduces every variable -- user variable or compiler temporary -- as a Lua local, parameter or top-level external in an enclosing block before any read or assignment, assignment targets are real locals (never inlinable temporaries) and blocks are balanced (theorem C10_lower_scoped, by induction on the lowering). The model of intermediate.rs + lua.rs is fed the real resolver's output and must reproduce the real compiler's Lua text byte for byte on every run; the theorem's hypothesis is evaluated on every real resolver output of the tie; an independent scan of the real Lua text looks for V-names outside any binding.",
+  note="Trusted: Coq kernel; Back/IR.v + Back/Emit.v as the model of intermediate.rs/lua.rs (byte-exact tie on all accepted repo tests + generated programs each run); the hook dump conversion; that a Lua `local` is a fresh variable per execution and closures capture by reference (Lua semantics: the dynamic half of C10, observed through the Lua interpreter model in the C01 oracle, not proved). No axioms.",
+  technique="Coq theorem (induction over the lowering) on a backend model tied byte-exactly to the real output + independent text scan", design="DESIGN.md §4 C10"),
 }
 
 NOT_YET = "not yet claimed in this revision (machinery under construction; see DESIGN.md §4 for the plan)"
